@@ -155,6 +155,102 @@ class Partial(G[T, str], t.Generic[T]):
 
 
 
+def shared_typevar_checks(out):
+    """one module-level TypeVar used by several generic classes (the usual style): a variable bound by one base is not bound in
+    the class's own fields or in the fields of an unrelated base; re-declared parameters are subscripted in their declared order;
+    a field annotated with a BARE generic class stays bare when the enclosing class is subscripted"""
+    import typing as t
+    import pane
+    T, U, V, W = t.TypeVar('T'), t.TypeVar('U'), t.TypeVar('V'), t.TypeVar('W')
+    n = 0
+
+    class G(pane.PaneBase, t.Generic[T]):
+        x: T
+
+    class G2(pane.PaneBase, t.Generic[T, U]):
+        x: T
+        y: U
+
+    class A(pane.PaneBase, t.Generic[T]):
+        a: T
+
+    class B(pane.PaneBase, t.Generic[T]):
+        b: T
+
+    class Box(pane.PaneBase, t.Generic[T]):
+        held: T
+
+    def mk():
+        class C1(G[int], t.Generic[T]):
+            z: T
+
+        class H(G[t.List[T]], t.Generic[T]):
+            y: T
+
+        class AB3(A[int], B):
+            pass
+
+        class H2(G2[int, V], t.Generic[W, V]):
+            w: W
+
+        class H3(G2[int, V], t.Generic[V]):
+            pass
+
+        class Swap(G2[U, T], t.Generic[T, U]):
+            pass
+
+        class Crate(pane.PaneBase, t.Generic[T]):
+            item: T
+            anything: Box = None
+            boxes: t.List[Box] = pane.field(default_factory=list)
+
+        class Sub(G[int]):
+            extra: Box = None
+        return [
+            ('C1(G[int], Generic[T]) z: T', lambda: C1, {'x': int, 'z': T}, None, None),
+            ('C1[str]', lambda: C1[str], {'x': int, 'z': str}, {'x': 1, 'z': 's'}, [{'x': 1, 'z': 2}, {'x': 's', 'z': 's'}]),
+            ('H(G[List[T]], Generic[T])[int]', lambda: H[int], {'x': t.List[int], 'y': int}, {'x': [1], 'y': 2}, [{'x': [[1]], 'y': 2}, {'x': [1], 'y': [2]}, {'x': 1, 'y': 2}]),
+            ('AB3(A[int], B) with bare B', lambda: AB3, {'a': int, 'b': T}, {'a': 1, 'b': 'anything'}, [{'a': 's'}]),
+            ('H2(G2[int, V], Generic[W, V])[str, float]', lambda: H2[str, float], {'x': int, 'y': float, 'w': str}, {'x': 1, 'y': 2.5, 'w': 's'}, [{'x': 1, 'y': 's', 'w': 's'}, {'x': 1, 'y': 2.5, 'w': 2.5}]),
+            ('H3(G2[int, V], Generic[V])[str]', lambda: H3[str], {'x': int, 'y': str}, {'x': 1, 'y': 's'}, [{'x': 1, 'y': 2}]),
+            ('Swap(G2[U, T], Generic[T, U])[int, str]', lambda: Swap[int, str], {'x': str, 'y': int}, {'x': 's', 'y': 1}, [{'x': 1, 'y': 1}, {'x': 's', 'y': 's'}]),
+            ('Crate[str] with a bare Box field', lambda: Crate[str], {'item': str, 'anything': Box, 'boxes': t.List[Box]},
+             {'item': 's', 'anything': {'held': 5}, 'boxes': [{'held': 1.5}, {'held': 's'}]}, [{'item': 1}]),
+            ('Sub(G[int]) with a bare Box field', lambda: Sub, {'x': int, 'extra': Box}, {'x': 1, 'extra': {'held': 's'}}, [{'x': 's'}]),
+        ]
+    with warnings.catch_warnings():
+        warnings.simplefilter('ignore')
+        try:
+            rows = mk()
+        except Exception as e:
+            out.violation(f'C17:shared-typevar:{type(e).__name__}', f'declaring the classes raised {type(e).__name__}: {str(e)[:200]}', {'case': 'declaration'})
+            return 1
+        for label, get, types, good, bads in rows:
+            n += 1
+            try:
+                cls = get()
+            except Exception as e:
+                out.violation(f'C17:shared-typevar:{type(e).__name__}', f'{label}: raised {type(e).__name__}: {str(e)[:200]}', {'case': label})
+                continue
+            got = {f.name: f.type for f in cls.__pane_info__.fields}
+            for k, want in types.items():
+                if repr(got.get(k)).replace('typing.', '').lower() != repr(want).replace('typing.', '').lower():
+                    out.violation('C17:shared-typevar:field-type', f'{label}: field {k} has type {got.get(k)!r}, expected {want!r}', {'case': label, 'field': k})
+            if good is not None:
+                try:
+                    cls.from_data(good)
+                except Exception as e:
+                    out.violation('C17:shared-typevar:rejects-valid', f'{label}.from_data({good!r}) raised {type(e).__name__}: {str(e)[:160]}', {'case': label})
+            for bad in bads or []:
+                n += 1
+                try:
+                    x = cls.from_data(bad)
+                    out.violation('C17:shared-typevar:not-enforced', f'{label}.from_data({bad!r}) accepted: {x!r}', {'case': label})
+                except pane.ConvertError:
+                    pass
+    return n
+
+
 def diamond_checks(rng, out, rounds):
     """multiple inheritance: every field is the one of the LAST declaration in base-first MRO order (type, default, position)"""
     import pane
@@ -347,6 +443,9 @@ def options_checks(rng, out):
 
 
 def run(ctx, out):
+    out.evaluations += shared_typevar_checks(out)
+    import families as _famgp
+    out.evaluations += _famgp.generic_parameter_twins(out, PROP)
     rng = random.Random(ctx['seed'])
     thorough = ctx['tier'] == 'thorough'
     out.rule = ('(1) random single-inheritance hierarchies (depth 1-3 quick / 1-5 thorough; field names drawn from 5 so that fields are redeclared, '
